@@ -28,6 +28,30 @@ fn main() {
         }
         Some("worker") => std::process::exit(supervisor::worker(&args[2..])),
         Some("replay") => std::process::exit(supervisor::replay_file(&args[2])),
+        Some("plan-table") => {
+            // markdown table of what every check runs (for DESIGN.md)
+            for p in plan::ALL_PROPERTIES {
+                for tier in [plan::Tier::Quick, plan::Tier::Thorough] {
+                    let Some(pl) = plan::plan(p, tier) else { continue };
+                    let jobs: Vec<String> = pl
+                        .jobs
+                        .iter()
+                        .map(|j| {
+                            format!(
+                                "{}:{}{}@{}{}{}",
+                                j.world,
+                                j.family,
+                                if j.profile == "dbg" { "[dbg]" } else { "" },
+                                j.depth,
+                                if j.prune { "" } else { " unpruned" },
+                                if j.split_first { " split" } else { "" }
+                            )
+                        })
+                        .collect();
+                    println!("| {} | {} | {} | {} |", p, tier.name(), pl.level, jobs.join("; "));
+                }
+            }
+        }
         Some("list") => {
             for (i, p) in graph::families::family(&args[2], plan::Tier::Quick).iter().enumerate() {
                 let j = p.to_json();
